@@ -134,6 +134,30 @@ def tsub(st, a, b):
     return None
 
 
+OP_TRAIT = re.compile(r"^<&?(?:'\w+ )?(u8|u16|u32|u64|u128|usize|i8|i16|i32|i64|i128|isize) as std::ops::(Shr|Shl|BitAnd|BitOr|BitXor|Add|Sub|Mul|Div|Rem)<&?(?:'\w+ )?(\w+)>>::\w+$")
+
+
+def op_trait_operands(an, st, t, args, sid="ot"):
+    """(op, int type, a, b) for `<&u8 as Sub<u8>>::sub(x, y)`-style operator calls on (references to) primitive integers"""
+    mo = None
+    for n in callee_names(t):
+        mo = mo or OP_TRAIT.match(n)
+    if not mo or len(args) != 2:
+        return None
+    ity, opn = mo.group(1), mo.group(2)
+
+    def deref_val(i):
+        a = args[i]
+        if (t["arg_tys"][i] or "").startswith("&"):
+            pk = _pointee_key(an, st, t, i, args)
+            v = st.vals.get(pk) if pk else None
+            if v is None:
+                v = an.ensure_sym(st, an.top_for(re.sub(r"^&('\w+ )?(mut )?", "", t["arg_tys"][i]), sid + "d%d" % i), sid)
+            return v
+        return a
+    return opn, ity, deref_val(0), deref_val(1)
+
+
 def apply(an, st, t, args, dkey, dty, sid):
     f = t["fn"]
     if f.get("path") is None:
@@ -453,22 +477,9 @@ def apply(an, st, t, args, dkey, dty, sid):
             st.diffs[(psid, lt[1])] = lt[2]
         return HANDLED
     # ---- operator traits on (references to) primitive integers ------------------------------------------------------------------
-    mo = None
-    for n in names:
-        mo = mo or re.match(r"^<&?(?:'\w+ )?(u8|u16|u32|u64|u128|usize|i8|i16|i32|i64|i128|isize) as std::ops::(Shr|Shl|BitAnd|BitOr|BitXor|Add|Sub|Mul|Div|Rem)<&?(?:'\w+ )?(\w+)>>::\w+$", n)
-    if mo and len(args) == 2:
-        ity, opn = mo.group(1), mo.group(2)
-
-        def deref_val(i):
-            a = args[i]
-            if (t["arg_tys"][i] or "").startswith("&"):
-                pk = _pointee_key(an, st, t, i, args)
-                v = st.vals.get(pk) if pk else None
-                if v is None:
-                    v = an.ensure_sym(st, an.top_for(re.sub(r"^&('\w+ )?(mut )?", "", t["arg_tys"][i]), sid + "d%d" % i), sid)
-                return v
-            return a
-        a, b = deref_val(0), deref_val(1)
+    ot = op_trait_operands(an, st, t, args, sid)
+    if ot is not None:
+        opn, ity, a, b = ot
         res = an.arith(st, opn, a, b, ity, sid + "op")
         if res is not None:
             it = st.itv(res)
